@@ -500,6 +500,7 @@ class World:
 
     def reset(self):
         self.engine.asl_store.store.clear()
+        self.engine.asl_store._update_store()       # (the file too: the persistence law reads it)
         self.engine.executions.clear()
         self.engine.execution_history.clear()
         self.engine.branch_metadata.clear()
@@ -750,6 +751,14 @@ class Runner:
               "published": [dict(project_event(e), shared=world.disp.shared.get(id(e))) for e in pub]}
         if status == 200 and op["action"] == "CreateStateMachine" and isinstance(resp.get("body"), dict):
             st["arn_ok"] = bool(world.mod.valid_state_machine_arn(resp["body"].get("stateMachineArn")))
+        if status == 200 and op["action"] in ("CreateStateMachine", "UpdateStateMachine", "DeleteStateMachine"):
+            # what a restarted engine would load: the store's file (the stores' own persistence is C20's subject; here:
+            # the front end writes what it answered *through* the store, not just into the object it read from it)
+            try:
+                with open(world.engine.asl_store.json_store) as f:
+                    st["persisted"] = json.load(f)
+            except Exception as e:      # noqa
+                st["persisted"] = {"unreadable": type(e).__name__}
         if "frame" in op:
             st["kind"] = "frame"
         elif op["action"] in LAW_ONLY:
@@ -837,6 +846,9 @@ def check_step(st, answer):
     if action == "DescribeStateMachine" and st["kind"] == "call" and resp["status"] != 200 and \
             isinstance(body.get("stateMachineArn"), str) and body["stateMachineArn"] in before["machines"]:
         out.append(("impl-violates-law", LAW_F5_DESCRIBE, {"resp": resp, "arn": body["stateMachineArn"]}, None))
+    if "persisted" in st and cj(st["persisted"]) != cj(after["machines"]):
+        out.append(("impl-violates-law", "a change the API answered with 200 has been written through the store (a restarted engine reads it back)",
+                    {"resp": resp, "stored_in_memory": after["machines"], "in_the_store_file": st["persisted"]}, None))
     if resp["status"] == 200 and action == "CreateStateMachine" and isinstance(resp.get("body"), dict):
         try:
             arn = resp["body"]["stateMachineArn"]
